@@ -184,7 +184,14 @@ type monClient struct {
 func TestC01(t *testing.T) {
 	rapid.Check(t, func(t *rapid.T) {
 		kit.PinUUIDs(1)
-		s := kit.GenSchema(t, kit.ProfileDB)
+		profile := kit.ProfileDB
+		if rapid.IntRange(0, 2).Draw(t, "refheavy") == 0 {
+			// garbage collection and weak-reference pruning over several rounds need a schema
+			// made for it
+			profile = kit.ProfileRefs
+			kit.Label("C01", "schema:reference-heavy-profile")
+		}
+		s := kit.GenSchema(t, profile)
 		w, err := kit.BuildWorld(s, nil)
 		if err != nil {
 			t.Fatalf("world: %v", err)
